@@ -167,8 +167,11 @@ def ed25519(ctx, world, ev):
         if oky:
             check_hkdf(ctx, "H4", "Ed25519.arbitrary_element", yp, INFO_ELEM, Const(48), seed, site)
         okx = isinstance(x, App) and x.f.startswith("fn:") and x.args == (yp,) and e2.policy.classify(gm.func_by_qual(world, x.f[3:])) == "leaf"
-        ctx.ob("H6", "x coordinate", okx, "x = xrecover(candidate): the even root, no sign choice" if okx else
-               "x coordinate is %s, expected xrecover(candidate)" % show(x, maxdepth=4), site)
+        whyx = ""
+        if okx:
+            okx, whyx = gm.sqrt_helper_ok(world, ev, gm.func_by_qual(world, x.f[3:]))
+        ctx.ob("H6", "x coordinate", okx, "x = xrecover(candidate), the even root, no sign choice (%s)" % whyx if okx else
+               "x coordinate is %s, expected the even square root of (y^2-1)/(dy^2+1) of the candidate %s" % (show(x, maxdepth=4), whyx), site)
         # on-curve, identity skip, L-torsion assert
         oncurve = any(is_app(t, "Eq", "NotEq") and (p is (t.f == "Eq")) and Const(0) in t.args and
                       any(is_app(a, "Mod") and a.args[1] == Const(Q) for a in t.args) for (t, p) in conds)
